@@ -7,4 +7,8 @@ TRUSTED = [
     "assume_specification: <Vec<T, A> as Extend<&'a T>>::extend",
     'uninterp: ext_seq',
     'external_body: ext_seq_vec', 'external_body: ext_seq_vec_ref', 'external_body: ext_seq_skip',
+    # machine fact: slice length is a usize
+    'external_body: axiom_slice_len_bound',
+    # opaque data types / total predicates with no postcondition
+    'external_body: is_', 'external_body: to_string', 'external_body: to_lower',
 ]
